@@ -4,8 +4,9 @@ CONSTANTS
   Conns = {1, 2}
   Limit = 1
   Tmos = {0, 2}
+  SrvTmos = {0}
   MaxTime = 3
   TimerFromAdmission = TRUE
-INVARIANTS TypeOK AtMostLimit WorkConserving QueueIsTheWaiting Fifo CutOnTime Independent
+INVARIANTS TypeOK AtMostLimit WorkConserving QueueIsTheWaiting Fifo CutOnTime Independent ServerTimerFromAdmission
 PROPERTY EveryCallEnds
 CHECK_DEADLOCK FALSE
